@@ -11,6 +11,9 @@ import EchoVerif.Lemmas.Codec.CborDepth
 import EchoVerif.Lemmas.Codec.CborRound
 import EchoVerif.Lemmas.Codec.CborFuel
 import EchoVerif.Lemmas.Codec.Records
+import EchoVerif.Lemmas.Codec.Ingress
+import EchoVerif.Lemmas.Codec.WalRecords
+import EchoVerif.Lemmas.Codec.WalCommit
 
 namespace EchoVerif.C12
 open EchoVerif EchoVerif.Cbor EchoVerif.Generated.CborHead
@@ -235,18 +238,175 @@ theorem eint_accepted_canonical (b : Bytes) (op : Nat) (vars : Bytes)
   · have : vars.length < 256 ^ 4 := hd.2.1
     omega
 
-/-- **ingress_roundtrip / ingress_accepted_canonical.** Retained ingress envelope v2: an envelope
-    whose fields are in range and whose causal parents are strictly ascending (the constructor's
-    sort+dedup form) reads back exactly; and the reader accepts only byte strings that are the
-    encoding of the envelope it returns — in particular with strictly ascending, duplicate-free
-    parents, known tags, valid UTF-8 inbox names and no trailing bytes. -/
-theorem ingress_roundtrip (e : Envelope) (h : ingressV2.dom e) :
-    fromRetainedV2 (ingressV2.enc e) = some e := decodeAll_roundtrip ingressV2_lawful e h
+/-- **ingress_roundtrip.** Retained ingress envelope v2, with the reader modelled as the code is
+    written: cursor walk, constructor (`sort_unstable` + `dedup` of the causal parents in the derived
+    `Ord`), RE-ENCODE, byte comparison with the input.  For every envelope with in-range fields and
+    ANY parent list (any order, duplicates allowed), the constructor's envelope is written and read
+    back exactly. -/
+theorem ingress_roundtrip (e : Envelope) (h : ingressRaw.dom e) :
+    fromRetainedV2 (toRetainedV2 (mkEnvelope e)) = some (mkEnvelope e) := by
+  have hd := mkEnvelope_dom e h
+  unfold fromRetainedV2
+  have hr : decodeAll ingressRaw (toRetainedV2 (mkEnvelope e)) = some (mkEnvelope e) :=
+    decodeAll_roundtrip ingressRaw_lawful _ hd
+  rw [hr]
+  simp only [mkEnvelope_idem, if_true]
 
+example : ingressRaw.dom (.inl (List.replicate 32 0), [], List.replicate 32 7, [1, 2, 3]) := by
+  simp [ingressRaw, magic, pair, targetCodec, tagged3, fixed, counted, lenBytes]
+
+/-- **ingress_accepted_canonical.** Whatever `from_retained_bytes` (v2) accepts is byte-for-byte
+    `to_retained_bytes_v2` of the envelope it returns, that envelope is a fixed point of the
+    constructor, and its parents are strictly ascending (so duplicate-free) in the derived `Ord`. -/
 theorem ingress_accepted_canonical (b : Bytes) (e : Envelope) (h : fromRetainedV2 b = some e) :
-    b = ingressV2.enc e ∧ strictlySorted e.2.1 = true := by
-  obtain ⟨hb, hd⟩ := decodeAll_canonical ingressV2_lawful b e h
-  exact ⟨hb, hd.2.1.2⟩
+    b = toRetainedV2 e ∧ mkEnvelope e = e ∧ strictlySorted e.2.1 = true ∧ ingressRaw.dom e := by
+  unfold fromRetainedV2 at h
+  split at h
+  · cases h
+  · rename_i raw hraw
+    simp only at h
+    split at h
+    · rename_i hre
+      injection h with h; subst h
+      obtain ⟨_, hd⟩ := decodeAll_canonical ingressRaw_lawful b raw hraw
+      exact ⟨hre.symm, mkEnvelope_idem raw, canonParents_sorted _, mkEnvelope_dom raw hd⟩
+    · cases h
+
+/-- **ingress_gate_iff_sorted.** The byte-level re-encode gate is equivalent, on EVERY input, to the
+    cursor walk followed by the check `parents strictly ascending in the derived Ord` (hashes
+    bytewise, ticks NUMERICALLY): the two readers are the same function. -/
+theorem ingress_gate_iff_sorted (b : Bytes) : fromRetainedV2 b = decodeAll ingressV2 b :=
+  fromRetainedV2_eq_guard b
+
+/-- the gate on the walk's output: re-encoding reproduces the bytes iff the parents were sorted -/
+theorem ingress_reencode_iff_sorted (e : Envelope) (h : ingressRaw.dom e) :
+    toRetainedV2 (mkEnvelope e) = toRetainedV2 e ↔ strictlySorted e.2.1 = true :=
+  reencode_eq_iff_sorted e h
+
+/-- the constructor's canonicalisation: always strictly ascending, idempotent, identity exactly on
+    strictly ascending lists -/
+theorem ingress_constructor_canonical (ps : List Parent) :
+    strictlySorted (canonParents ps) = true ∧ canonParents (canonParents ps) = canonParents ps ∧
+    (canonParents ps = ps ↔ strictlySorted ps = true) :=
+  ⟨canonParents_sorted ps, canonParents_idem ps,
+   fun h => by rw [← h]; exact canonParents_sorted ps, canonParents_of_sorted ps⟩
+
+/-- two same-role parents on one worldline whose ticks are 255 and 256 -/
+def tickParent (t : Nat) : Parent :=
+  .inl (List.replicate 32 0, t, 0, List.replicate 32 0, List.replicate 32 0, List.replicate 32 0,
+    List.replicate 32 0)
+
+/-- **ingress_byte_order_is_not_the_gate.** `retained parent records strictly ascending as raw byte
+    strings` is a DIFFERENT relation (tick fields are little-endian): the writer's own order
+    [tick 255, tick 256] is not bytewise ascending, and the swapped order is bytewise ascending
+    without being canonical.  A reader that checks byte order refuses the first (round trip lost) and
+    accepts the second (two encodings of one envelope). -/
+theorem ingress_byte_order_is_not_the_gate :
+    (strictlySorted [tickParent 255, tickParent 256] = true ∧
+      bytesAscending [tickParent 255, tickParent 256] = false) ∧
+    (bytesAscending [tickParent 256, tickParent 255] = true ∧
+      strictlySorted [tickParent 256, tickParent 255] = false) ∧
+    canonParents [tickParent 256, tickParent 255] = [tickParent 255, tickParent 256] := by
+  decide +kernel
+
+/-- **ingress_v1_accepted_canonical / ingress_v1_roundtrip.** Legacy `EINGR001` material: accepted
+    only when it cites no parent and is the v2 form of the returned envelope under the v1 magic;
+    every parentless envelope in that form reads back. -/
+theorem ingress_v1_accepted_canonical (b : Bytes) (e : Envelope) (h : fromRetainedV1 b = some e) :
+    b = toRetainedV1 e ∧ e.2.1 = [] := by
+  unfold fromRetainedV1 at h
+  split at h
+  · cases h
+  · rename_i raw hraw
+    split at h
+    · cases h
+    · simp only at h
+      split at h
+      · rename_i hre
+        injection h with h; subst h
+        exact ⟨hre.symm, rfl⟩
+      · cases h
+
+theorem ingress_v1_roundtrip (e : Envelope) (h : ingressRaw.dom e) (hp : e.2.1 = []) :
+    fromRetainedV1 (toRetainedV1 e) = some e := by
+  obtain ⟨t, ps, k, ib⟩ := e
+  simp only at hp; subst hp
+  have henc : toRetainedV1 (t, [], k, ib) = ingressV1Raw.enc (t, [], k, ib) := by
+    simp [toRetainedV1, toRetainedV2, ingressRaw, ingressV1Raw, magic, pair, counted, encMany,
+      ingressMagicV1, ingressMagicV2]
+  have hd : ingressV1Raw.dom (t, [], k, ib) := ⟨h.1, ⟨by simp, by simp⟩, h.2.2⟩
+  have hr := decodeAll_roundtrip ingressV1Raw_lawful _ hd
+  unfold fromRetainedV1
+  rw [henc, hr]
+  simp [mkEnvelope, canonParents, canonBy, sortBy, dedupAdj, ← henc]
+
+/-- **ingress_accepted_any_version.** The dispatching reader: every accepted buffer is the v2 encoding
+    of the returned envelope, or (legacy) its parentless v1 form — nothing else. -/
+theorem ingress_accepted_any_version (b : Bytes) (e : Envelope) (h : fromRetained b = some e) :
+    (b = toRetainedV2 e ∨ (b = toRetainedV1 e ∧ e.2.1 = [])) ∧ strictlySorted e.2.1 = true := by
+  unfold fromRetained at h
+  split at h
+  · cases h
+  · split at h
+    · obtain ⟨h1, _, h3, _⟩ := ingress_accepted_canonical b e h
+      exact ⟨Or.inl h1, h3⟩
+    · split at h
+      · obtain ⟨h1, h2⟩ := ingress_v1_accepted_canonical b e h
+        exact ⟨Or.inr ⟨h1, h2⟩, by rw [h2]; rfl⟩
+      · cases h
+
+/-! ### WAL payload records (causal_wal.rs `to_payload_bytes` / `from_payload_bytes`) -/
+
+/-- **walrec_laws.** Submission acceptance, submission envelope, tick receipt v2, retained material,
+    reading reference, checkpoint and checkpoint publication records are lawful codecs: each reads
+    back every in-range value exactly and accepts, as a whole payload, only the encoding of the
+    value it returns (unknown enum codes / option tags / magics, short and trailing bytes refused).
+    Enum code tables and magics are extracted (Generated/WalRecMagic.lean). -/
+theorem walrec_laws :
+    Lawful acceptanceRec ∧ Lawful submissionEnvRec ∧ Lawful tickReceiptRec ∧ Lawful materialRec ∧
+    Lawful readingRefRec ∧ Lawful checkpointRec ∧ Lawful checkpointPubRec :=
+  ⟨acceptanceRec_lawful, submissionEnvRec_lawful, tickReceiptRec_lawful, materialRec_lawful,
+   readingRefRec_lawful, checkpointRec_lawful, checkpointPubRec_lawful⟩
+
+/-- the tick-receipt instance spelled out -/
+theorem tick_receipt_accepted_canonical (b : Bytes) (r : TickReceipt)
+    (h : decodeAll tickReceiptRec b = some r) :
+    b = Generated.WalRecMagic.tickReceiptMagicV2 ++ refCodec.enc r.1 ++ [UInt8.ofNat r.2] ∧
+    r.2 ∈ Generated.WalRecMagic.tickDecisionCodes := by
+  obtain ⟨hb, hd⟩ := decodeAll_canonical tickReceiptRec_lawful b r h
+  have hc : (Generated.WalRecMagic.tickDecisionCodes.contains r.2) = true := hd.2.2
+  refine ⟨?_, by simpa using hc⟩
+  rw [hb]
+  simp [tickReceiptRec, magic, pair, enumByte, Codec.guard, uintLE, leBytes]
+
+/-- **correlation_roundtrip / correlation_accepted_canonical.** Receipt correlation v2: the writer
+    canonicalises the cited receipts as a set (sort + dedup in the derived `Ord`), omits the count
+    when the set is empty; the reader returns exactly that canonical record for every in-range
+    input, and accepts only byte strings the writer produces for the record it returns (explicit
+    zero count, unsorted or duplicate references, trailing bytes refused). -/
+theorem correlation_roundtrip (c : Correlation) (h : correlationDom c) :
+    correlationDec (correlationEnc c) = some (c.1, canonBy refCmp c.2) :=
+  Codec.correlation_roundtrip c h
+
+theorem correlation_accepted_canonical (b : Bytes) (c : Correlation) (h : correlationDec b = some c) :
+    b = correlationEnc c ∧ strictlyAsc refCmp c.2 = true ∧ correlationDom c :=
+  Codec.correlation_canonical b c h
+
+example : correlationDom ((List.replicate 32 0, 1, 2, List.replicate 32 0, List.replicate 32 0,
+    List.replicate 32 0, List.replicate 32 0), []) := by
+  simp [correlationDom, refCodec, pair, fixed, uintLE]
+
+/-- **wal_commit_accepted_canonical / wal_commit_roundtrip.** WAL commit marker (Model/Wal.lean, the
+    model C10 runs against the real segment files): `decode_commit` accepts only `encode_commit` of
+    the marker it returns (exact length, known transaction-kind and durability codes), and every
+    well-sized marker reads back. -/
+theorem wal_commit_accepted_canonical (cfg : Wal.Cfg) (bs : Bytes) (c : Wal.Commit)
+    (h : Wal.decodeCommit cfg bs = .ok c) :
+    bs = Wal.encodeCommit c ∧ cfg.txKindOk c.txKind = true ∧ cfg.durabilityOk c.durability = true :=
+  Wal.decodeCommit_canonical cfg bs c h
+
+theorem wal_commit_roundtrip (cfg : Wal.Cfg) (c : Wal.Commit) (h : Wal.CommitOK cfg c) :
+    Wal.decodeCommit cfg (Wal.encodeCommit c) = .ok c := Wal.decodeCommit_encodeCommit cfg c h
 
 /-- **elog_header_canonical / elog_frame_canonical.** The ELOG header reader accepts exactly
     "ELOG" ‖ 01 00 ‖ 00 00 ‖ hash ‖ 0^8; a frame is its u32 LE length (≤ MAX_FRAME_LEN) and payload. -/
